@@ -45,7 +45,17 @@ let () =
         let kk = Caseio.meta_int c "K" in
         let d = dl + dc in
         let a = (Caseio.get_mat c "a").(0).(0) in
-        let shift = Caseio.get_mat c "shift" and lik = Caseio.get_mat c "lik" in
+        let shift = Caseio.get_mat c "shift" in
+        let gauss = Caseio.meta c "likmodel" = "gauss" in
+        (* scripted likelihood: from the case; GaussianLikelihood: the vector the library computed (checked
+           against the closed form by the plug-in's oracle), None when it reported the likelihood invalid *)
+        let lik_of k =
+          let sk = string_of_int k in
+          if gauss then
+            (if Caseio.has io ("lv" ^ sk) && Caseio.get_int io ("lv" ^ sk) = 1
+             then Some (lvec_of_col (Caseio.get_mat io ("lik" ^ sk))) else None)
+          else
+            (if flag c "likvalid" k then Some (Array.to_list (Array.map ob (Caseio.get_mat c "lik").(k))) else None) in
         let s0 = { s_lin = nat_of_int dl; s_circ = nat_of_int dc;
                    s_states = cols_of (Caseio.get_mat c "init_state");
                    s_lw = lvec_of_col (Caseio.get_mat c "init_lw") } in
@@ -58,7 +68,7 @@ let () =
           List.init kk (fun k ->
             let u1 = if Caseio.has io ("u1_" ^ string_of_int k) then Caseio.get_num io ("u1_" ^ string_of_int k) else nan in
             { ev_skip_pred = flag c "skipp" k; ev_skip_corr = flag c "skipc" k; ev_freeze = flag c "freeze" k;
-              ev_lik = (if flag c "likvalid" k then Some (Array.to_list (Array.map ob lik.(k))) else None);
+              ev_lik = lik_of k;
               ev_pred = (fun i x ->
                 let fi = float_of_int (int_of_nat i + 1) in
                 List.mapi (fun r v -> let t = a *. fl v in let t = t +. shift.(k).(r) in ob (t +. 0.01 *. fi)) x);
@@ -73,7 +83,16 @@ let () =
             Caseio.out_int ("res" ^ sk) (if dec then 1 else 0);
             Caseio.out_num ("neff" ^ sk) (fl (c06_neff fops m.s_lw));
             Caseio.out_num ("mlse" ^ sk) (fl (c06_lse fops m.s_lw));
-            Caseio.out_mat_shape ("mlw" ^ sk) (List.length m.s_lw) 1 (col_of_lvec m.s_lw))
+            Caseio.out_mat_shape ("mlw" ^ sk) (List.length m.s_lw) 1 (col_of_lvec m.s_lw);
+            if dec then begin
+              let u1 = (List.nth evs k).ev_u1 in
+              let par = c06_parents fops m.s_lw u1 in
+              Caseio.out_mat_shape ("par" ^ sk) (List.length par) 1
+                (Array.of_list (List.map (fun p -> [| float_of_int (int_of_nat p) |]) par));
+              Caseio.out_mat_shape ("csw" ^ sk) (List.length m.s_lw) 1 (col_of_lvec (c06_csw fops m.s_lw));
+              Caseio.out_mat_shape ("comb" ^ sk) (List.length m.s_lw) 1
+                (col_of_lvec (c06_comb fops (nat_of_int (List.length m.s_lw)) u1))
+            end)
           tr;
         Caseio.out_end ())
     cases
